@@ -2660,6 +2660,53 @@ def el2(m, run):
                 bad.append(((p, t), why))
     run.ob('EL2.elevation-reduction-exact', '%s :: degree 1..4 x count 1..3' % fe.key, not bad, 'Eq. 5.36 as a polynomial identity in the control points' if not bad else
            'degree %d elevated %d times: %s   [%d of %d cases]' % (bad[0][0][0], bad[0][0][1], bad[0][1], len(bad), n), 'geomdl/helpers.py:%d in %s' % (fe.node.lineno, fe.key))
+    # polygons of rows of points (the per-direction use on surfaces and volumes): the same identity cell by cell, reduction inverts it
+    badr, nr_ = [], 0
+    for p in (1, 2, 3):
+        for t in (1, 2):
+            nr_ += 1
+            R = [[[Poly.atom('R_%d_%d_%d' % (j, r, c)) for c in range(2)] for r in range(2)] for j in range(p + 1)]
+            sk = SK(m, ab)
+            sk.exact = True
+            try:
+                out = sk.call(fe, [p, [[[Sym(x) for x in pt] for pt in row] for row in R]], {'num': t})
+                why = None
+                if not isinstance(out, list) or len(out) != p + t + 1:
+                    why = '%r rows, expected %d' % (len(out) if isinstance(out, list) else out, p + t + 1)
+                else:
+                    for r in range(2):
+                        want = elevate([R[j][r] for j in range(p + 1)], p, t)
+                        for i in range(p + t + 1):
+                            for c in range(2):
+                                try:
+                                    s = _as_sym(out[i][r][c])
+                                except (IndexError, TypeError):
+                                    s = None
+                                if s is None or not s.same(Sym(want[i][c])):
+                                    why = 'row %d point %d coordinate %d is not the Eq. 5.36 combination of the corresponding points of the input rows' % (i, r, c)
+                                    break
+                            if why:
+                                break
+                        if why:
+                            break
+                if why is None and t == 1 and p + 1 >= 2:
+                    sk2 = SK(m, ab)
+                    sk2.exact = True
+                    back = sk2.call(m.func('helpers.degree_reduction'), [p + 1, out], {})
+                    for j in range(p + 1):
+                        for r in range(2):
+                            for c in range(2):
+                                s = _as_sym(back[j][r][c])
+                                if s is None or not s.same(Sym(R[j][r][c])):
+                                    why = 'reducing the elevated rows does not give the rows back (row %d, point %d)' % (j, r)
+            except Violation as v:
+                why = '%s %s' % (v.msg, v.where())
+            except Unsupported as ex:
+                raise AnalysisError('%s (rows of points): interpreter met an unsupported construct: %s' % (fe.key, ex))
+            if why:
+                badr.append(((p, t), why))
+    run.ob('EL2.elevation-reduction-exact', '%s :: polygons of rows of points, degree 1..3 x count 1..2' % fe.key, not badr, 'Eq. 5.36 cell by cell on rows of points; reduction inverts it' if not badr else
+           'degree %d elevated %d times on rows of points: %s   [%d of %d cases]' % (badr[0][0][0], badr[0][0][1], badr[0][1], len(badr), nr_), 'geomdl/helpers.py:%d in %s' % (fe.node.lineno, fe.key))
     # inadmissible requests are rejected: a count that is not positive, a polygon that is not a Bezier polygon of the stated degree
     rej = []
     for what, args, kw in (('num = 0', [2, [[Sym('a%d' % i), Sym('b%d' % i)] for i in range(3)]], {'num': 0}),
